@@ -177,6 +177,7 @@ func init() {
 	}
 	// C07: well-behaved handlers see each member once, in order
 	suites["c07"] = func(e *emitter, r *rng, thorough bool) {
+		usedBufferHistories(e, []string{"skip"}, true) // traversal still validates, whatever Buffer it is given
 		// exhaustive strategy vectors for documents with <= 4 (quick) / 6 (thorough) members
 		maxm := 4
 		if thorough {
